@@ -7,6 +7,8 @@ NOTES = ("All checks are property-based tests / fuzzers (pgregory.net/rapid v1.3
 ENGINES = [
     {"name": "simexec", "path": "harness/sim", "serves_properties": ["C01", "C02", "C03", "C04", "C05", "C10", "C15"],
      "kind_free_text": "scripted in-process executor registered with the real executor registry + harness-owned release schedule; trace oracles"},
+    {"name": "storemodel", "path": "harness/chk/c06", "serves_properties": ["C06", "C18", "C20"],
+     "kind_free_text": "rapid state machines comparing the real stores / API with in-memory reference models after every step"},
     {"name": "graphenum", "path": "harness/chk/c14", "serves_properties": ["C14"],
      "kind_free_text": "small-scope exhaustive digraph enumeration + random graphs with planted cycles; independent DFS oracle"},
 ]
@@ -56,6 +58,12 @@ META = {
         "technique": "small-scope exhaustive generation + property-based testing (rapid) against an independent DFS cycle/dangling-name oracle (differential)",
         "level_text": "Exhaustive over every digraph on <=4 steps (and, thorough, all 2^20 loop-free edge sets on 5); generated search with planted cycles up to 40 steps. Exhaustive only for the listed sub-spaces.",
         "level_note": "Trusted: the 25-line DFS oracle. The agent-level clause (refused run executes nothing and records nothing) is checked on a sampled subset.",
+    },
+    "C06": {
+        "engine": "storemodel", "design_ref": "DESIGN.md section 3 C06",
+        "technique": "model-based (stateful) property testing with rapid: generated operation histories on the real jsondb store compared after every step with an in-memory reference model",
+        "level_text": "Generated search over operation histories x hostile DAG names x start-time clusters x payloads; every query answer on every DAG is compared with the model after every operation (cross-DAG isolation is implied).",
+        "level_note": "Trusted: the ~150-line reference model; file mtime as the retention clock. No absence claim.",
     },
 }
 
